@@ -13,7 +13,7 @@ import time
 
 VERIF = os.path.dirname(os.path.dirname(os.path.abspath(__file__)))
 REPO = os.environ.get("VERIF_REPO", "/repo")
-TARGET = os.path.join(VERIF, "target")
+TARGET = os.environ.get("VERIF_TARGET") or os.path.join(VERIF, "target")   # VERIF_TARGET: tools/coverage.sh only
 SHIM = os.path.join(VERIF, "shim", "hashseed.so")
 SCRATCH_ROOT = "/dev/shm" if os.path.isdir("/dev/shm") else "/var/tmp"
 WORKERS = int(os.environ.get("VERIF_WORKERS", "16"))
@@ -338,8 +338,9 @@ class Verdict:
                 print("INCONCLUSIVE property=%s %d of %d cases blocked" % (self.pid, self.blocked, self.evaluations))
                 rc = 2
         ev["verdict"] = {0: "held-on-observed", 1: "violated", 2: "inconclusive"}[rc]
-        os.makedirs(os.path.join(VERIF, "evidence"), exist_ok=True)
-        with open(os.path.join(VERIF, "evidence", self.pid + ".json"), "w") as f:
+        evdir = os.environ.get("VERIF_EVIDENCE_DIR") or os.path.join(VERIF, "evidence")   # override: tools/coverage.sh only
+        os.makedirs(evdir, exist_ok=True)
+        with open(os.path.join(evdir, self.pid + ".json"), "w") as f:
             json.dump(ev, f, indent=1, default=str)
         print("%s %s tier=%s seed=%d evaluations=%d nontrivial=%d violations=%d known=%d wall=%.1fs" %
               (self.pid, ev["verdict"], self.tier, seed(), self.evaluations, len(self.nontrivial),
